@@ -70,12 +70,14 @@ func (m *Mux) NewEndpoint(matchFunc MatchFunc) *Endpoint {
 	// Set a maximum size of the buffer in bytes.
 	endpoint.buffer.SetLimitSize(maxBufferSize)
 
+	// Register the endpoint and hand it the packets that arrived before it
+	// existed in one critical section, so that a packet dispatched right after
+	// the registration cannot overtake the queued ones.
 	m.lock.Lock()
 	m.endpoints[endpoint] = matchFunc
+	m.handlePendingPackets(endpoint, matchFunc)
 	m.lock.Unlock()
 	verifYield("mux.NewEndpoint.registered", m)
-
-	go m.handlePendingPackets(endpoint, matchFunc)
 
 	return endpoint
 }
@@ -201,12 +203,11 @@ func (m *Mux) dispatch(buf []byte) error {
 	return err
 }
 
+// handlePendingPackets moves the queued packets the endpoint matches into its
+// buffer, in arrival order. The caller must hold m.lock.
 func (m *Mux) handlePendingPackets(endpoint *Endpoint, matchFunc MatchFunc) {
 	verifYield("mux.flush.enter", m)
 	defer verifYield("mux.flush.exit", m)
-	m.lock.Lock()
-	defer m.lock.Unlock()
-
 	pendingPackets := make([][]byte, 0, len(m.pendingPackets))
 	for _, buf := range m.pendingPackets {
 		if matchFunc(buf) {
